@@ -22,6 +22,8 @@
 (*                     it, and its State is authenticated / grace_period    *)
 (*                     (captive portal enabled) / new accordingly           *)
 (*    GwIsolation      a call naming one MAC changes no other MAC's session *)
+(*                     (CreateSession may end the session of a MAC that     *)
+(*                     still holds the address it is given)                 *)
 (*    RenewSame        CreateSession for a MAC that has a session returns   *)
 (*                     that same session (same ID, same address)            *)
 (*    CreateResult     CreateSession returns nil and, for a new MAC, a      *)
@@ -97,7 +99,10 @@ GwEdgeClauses(cfg, g, e) ==
         ELSE IF e.op = "release" THEN
              (IF ~e.ok THEN {"ReleaseIdempotent"} ELSE {})
         \cup (IF e.expired # (IF live THEN one ELSE <<>>) THEN {"CallbackOnce"} ELSE {})
-        ELSE (IF e.expired # <<>> THEN {"CallbackOnce"} ELSE {})
+        ELSE (IF (e.op # "create" /\ e.expired # <<>>) \/ (e.op = "create" /\ (GRange(e.expired) # GRange(e.gone) \/ Len(e.expired) # Len(e.gone)))
+                 THEN {"CallbackOnce"} ELSE {})
+        \* CreateSession may end the sessions of other MACs that hold the address it is given (a stale holder), nothing else
+        \cup (IF e.op = "create" /\ \E k \in GRange(e.gone) : ~(~live /\ k # e.m /\ g.live[k] /\ g.ip[k] = e.ip) THEN {"GwIsolation"} ELSE {})
         \cup (IF e.op = "create" THEN
                    (IF ~e.ok \/ (~live /\ e.rip # e.ip) THEN {"CreateResult"} ELSE {})
               \cup (IF live /\ e.ok /\ (~e.same \/ e.rip # g.ip[e.m]) THEN {"RenewSame"} ELSE {})
@@ -111,7 +116,8 @@ GwStep(cfg, g, e, obs) ==
                !.live = [m \in GwMacs(cfg) |-> g.live[m] /\ m \notin GRange(e.gone)]]
   ELSE IF e.op = "create" THEN
      (IF g.live[e.m] THEN [g EXCEPT !.lage[e.m] = 0]
-      ELSE [g EXCEPT !.live[e.m] = TRUE, !.ip[e.m] = e.ip, !.auth[e.m] = FALSE, !.lage[e.m] = 0, !.gage[e.m] = 0])
+      ELSE [g EXCEPT !.live = [k \in GwMacs(cfg) |-> k = e.m \/ (g.live[k] /\ k \notin GRange(e.gone))],
+                     !.ip[e.m] = e.ip, !.auth[e.m] = FALSE, !.lage[e.m] = 0, !.gage[e.m] = 0])
   ELSE IF e.op = "renew" THEN (IF g.live[e.m] THEN [g EXCEPT !.lage[e.m] = 0] ELSE g)
   ELSE IF e.op = "auth" THEN (IF g.live[e.m] THEN [g EXCEPT !.auth[e.m] = TRUE] ELSE g)
   ELSE IF e.op = "release" THEN [g EXCEPT !.live[e.m] = FALSE]
